@@ -59,8 +59,30 @@ Theorem C09_two_copies_one_answer :
 Proof. exact two_copies_recorded_and_answered_once. Qed.
 
 
+From Lospan Require Import Proof.AnswerProof.
+(* Existence ("every accepted confirmed uplink is answered by exactly one downlink with the ACK flag set, even when
+   there is nothing else to send"): for every state with a data-typed buffer entry in which what is queued can be
+   sent (ports 1..223, as the service accepts), every confirmed frame that passes the counter check, from a device
+   of a registered application, received with a valid data rate at a fresh receive time: exactly one downlink
+   leaves, its FCtrl has the ACK bit (bit 5 of byte 5 of the raw frame) set, and it is addressed to the device. *)
+Theorem C09_confirmed_uplink_is_acknowledged :
+  forall (E D : list N -> list N -> list N), (forall k b, length (E k b) = 16%nat) ->
+  forall apps st f rx n now r,
+    ds_row st = Some r -> fb_down st -> valid_datr rx -> sendable st ->
+    mtype f = ConfirmedDataUp -> stale r f = false ->
+    (forall x, In x (ds_inbox st) -> u_ts x <> rx_ts rx) -> has_app apps (d_appeui r) = true ->
+    exists dl, downs (snd (l_uplink E D apps st f rx n now)) = [dl] /\ N.testbit (nth 5 (dl_raw dl) 0) 5 = true /\ dl_eui dl = d_eui r.
+Proof. exact confirmed_uplink_is_acknowledged. Qed.
+(* "what is queued can be sent" holds in every state reached by uplinks and by submissions on sendable ports *)
+Theorem C09_sendable_in_every_history :
+  forall (E D : list N -> list N -> list N) apps evs st,
+    sendable st -> Forall ev_sendable evs -> sendable (fst (fst (run E D apps st evs))).
+Proof. exact sendable_history. Qed.
+
 Print Assumptions C09_at_most_one_answer.
 Print Assumptions C09_rejected_not_answered.
 Print Assumptions C09_ack_flag_cleared.
 Print Assumptions C09_concurrent_copies_one_answer.
 Print Assumptions C09_two_copies_one_answer.
+Print Assumptions C09_confirmed_uplink_is_acknowledged.
+Print Assumptions C09_sendable_in_every_history.
